@@ -263,7 +263,14 @@ class World:
                         return 'error', 'missing-attachment'
                     if slot == 'a1' and m.get('cls') == 'Typed' and t is not None:
                         return 'error', 'wrongly-typed-attachment'
-        # cycles among used edges
+        if self.has_cycle(scen):
+            return 'error', 'cyclic-attachment'
+        return 'ok', None
+
+    @staticmethod
+    def has_cycle(scen):
+        """cycles among used edges"""
+        mods = {m['name']: m for m in scen['mods']}
         edges = {m['name']: [m.get(s) for s in ('a1', 'a2') if m.get(s) in mods] for m in scen['mods'] if m.get('use') in ('init', 'early')}
         state = {}
 
@@ -278,8 +285,8 @@ class World:
             return False
         for u in list(edges):
             if state.get(u) is None and dfs(u):
-                return 'error', 'cyclic-attachment'
-        return 'ok', None
+                return True
+        return False
 
     # ---------------------------------------------------------------- run + judge
     def run(self, scen, strategy=('seq',), seed=0):
@@ -352,6 +359,16 @@ class World:
                 r.violation(f'C15/half-started-node/{reason}', f'the node went on to serve although {reason}', case)
             elif res != 'exit':
                 r.violation(f'C15/error-not-reported-as-configuration-error/{reason}', f'{res}: {info.get("stderr", "")[:150]}', case)
+            else:
+                # also on the way to a refused start: every module is early-initialised and initialised at most once
+                for m in ([] if self.has_cycle(scen) else scen['mods']):      # a cycle recurses until the interpreter gives up
+                    r.count('error_nodes_init_counts_checked')
+                    for kind in ('early', 'init'):
+                        n = sum(1 for e in LOG if e[2] == m['name'] and e[3] == kind)
+                        if n > 1:
+                            r.violation(f'C15/initialised-more-than-once/{"failing" if m.get("fail") else "other"}-module',
+                                        f'{m["name"]}: {kind}Init ran {n}x while the node start was refused ({reason})', dict(case, module=m['name']))
+                            return
             return
         if res != 'ok':
             r.violation('C15/valid-node-refused', f'{res}: {info.get("stderr", "")[:300]}', case)
